@@ -14,7 +14,7 @@ def _c16_pm(form, pats, tier="quick", maxname=None):
 
 PROPS["C16"] = {
     "bounds": ("pickle: one line = name of 1..2 (thorough 1..3) printable ASCII bytes, value token = 1..2 free digits or one of 11 concrete spellings (valid and invalid, incl. NaN, Inf, hex, out of range), timestamp token = 1..3 free printable bytes, "
-               "or the prefix 429496 + 1..4 free digits (around 2^32), or the prefix 15000000 + 1..3 free bytes; followed by one fixed good line; names of 70..5000 bytes (6 lengths, beyond every plausible initial buffer size); ParseDataPoint alone on 1..4 fields of 1..2 bytes; "
+               "or the prefix 429496 + 1..4 free digits (around 2^32), or the prefix 15000000 + 1..3 free bytes; followed by one fixed good line; three Pickle calls on two datapoints with free names of 1..2 / 1..3 bytes, every returned message compared again after the later calls (sync.Pool modelled as recycling: Get returns the object Put last); names of 70..5000 bytes (6 lengths, beyond every plausible initial buffer size); ParseDataPoint alone on 1..4 fields of 1..2 bytes; "
                "record (parseMetric): first token of 1..3 free printable bytes (thorough 1..4) where every ';' starts a tag, or a 1..2 byte name with 0..2 tags of three free bytes each, value one free digit, timestamp 1..2 free bytes (1 with structured tags), "
                "free organisation id 0..2^31, schema lists of 1..3 rules over concrete patterns (anchored with ^ and $, unanchored, matching tag text) closed by '.*', first retentions 10s/20s/30s/60s; "
                "schema file: 2..3 sections (thorough 4), each with priority absent or 1..2 free digits, old ('60:1440') and new ('10s:1d', '5m:1y', '1h:7d') retention syntax"),
@@ -34,6 +34,7 @@ PROPS["C16"] = {
             spec("C16/pickle/ts-around-2^32", "VerifC16Pickle", {"tsprefix": "429496", "tsdigits": "1", "maxts": "4", "maxname": "1"}),
             spec("C16/pickle/ts-long", "VerifC16Pickle", {"tsprefix": "15000000", "maxts": "3", "maxname": "1"}),
             spec("C16/pickle/parse-datapoint", "VerifC16ParseDataPoint"),
+            spec("C16/pickle/messages-independent", "VerifC16PickleIndependent"),
         ] + [spec("C16/pickle/long-name=%d" % k, "VerifC16Pickle", {"maxname": "1", "longname": str(k), "maxts": "1", "tsprefix": "150000000"}) for k in (70, 150, 300, 600, 1200, 5000)] + [
         ]},
         {"pkg": "route", "hdir": "route", "specs": [
